@@ -115,6 +115,7 @@ class PeerWorld:
         self.rx_msgs: list[tuple[int, int, bytes]] = []  # (t, type, raw) received by the remote speaker
         self.connect_plan: list[str] = []  # 'ok' | 'fail' for successive outgoing attempts (default ok)
         self.conn_seq = 0
+        self._readers: dict = {}
         self.cur_conn = 0
         self._conn_ids: dict[int, int] = {}
         self.tasks: list = []
@@ -228,6 +229,7 @@ class PeerWorld:
         self.log('conn', what=kind, c=cid)
         t = asyncio.get_event_loop().create_task(self._remote_reader(sock, cid))
         self.tasks.append(t)
+        self._readers[id(sock)] = t
 
     async def _remote_reader(self, sock: socket.socket, cid: int) -> None:
         loop = asyncio.get_event_loop()
@@ -273,6 +275,10 @@ class PeerWorld:
     def remote_close(self) -> None:
         if self.remote is not None:
             self.log('rx', cls='EOF', c=self.cur_conn, len=0)
+            # unregister the pending read before the fd number can be reused by the next socketpair
+            t = self._readers.pop(id(self.remote), None)
+            if t is not None:
+                t.cancel()
             try:
                 self.remote.close()
             except OSError:
@@ -312,6 +318,9 @@ class PeerWorld:
             return False
         self._new_transport(b, cid, 'incoming-accepted')
         if old_remote is not None and old_remote is not self.remote:
+            t = self._readers.pop(id(old_remote), None)
+            if t is not None:
+                t.cancel()
             try:
                 old_remote.close()
             except OSError:
